@@ -97,6 +97,11 @@ def scenarios(rng, quick):
                 ["-out", "OUT", "--", "--", "FILE"], ["--", "-out", "OUT", "FILE"], ["-out", "OUT", "-nosuch=1", "FILE"], ["-out", "OUT", "-verbose=TRUE", "-debug=F", "FILE"], ["-help=T"], ["--h"], ["-h=1"]):
         for inp in ["valid", "syntax"]:
             sc.append(dict(input=inp, out="dir", pkg="missing", name="", flags=[], raw=raw))
+    # -out values that are relative to the working directory and look like something else: a leading tilde (no shell here: it is a
+    # directory name), a leading minus (the value of a flag is the next argument whatever it looks like), blanks, dots
+    for rel in ("~gen", "~/x", "~", "-dash", "a b", "sub/../sub", "./.hidden", "--"):
+        for raw in (["-out", "REL", "FILE"], ["-out=REL", "FILE"], ["-name", "pkg", "--out", "REL", "FILE"]):
+            sc.append(dict(input="valid", out="dir", pkg="missing", name="", flags=[], raw=raw, rel=rel))
     return sc
 
 
@@ -263,11 +268,19 @@ def run(ctx):
                 have_file = 0; eff = fileArg or ""; idvalid = 0
             if "raw" in s:
                 os.makedirs(os.path.join(box, "else"), exist_ok=True)
-                args = [x.replace("OUT", outdir).replace("FILE", fileArg).replace("ELSE", os.path.join(box, "else")) for x in s["raw"]]
+                if "rel" in s:
+                    outdir = os.path.normpath(os.path.join(cwd, s["rel"])); os.makedirs(outdir, exist_ok=True)
+                args = [x.replace("REL", s.get("rel", "REL")) for x in s["raw"]]
+                args = [x.replace("OUT", outdir).replace("FILE", fileArg).replace("ELSE", os.path.join(box, "else")) for x in args]
                 if "-name=pkg" in args or "pkg" in args:
                     eff = "pkg"
             before = snapshot(box)
-            p = subprocess.run([emerge] + args, cwd=cwd, stdout=subprocess.PIPE, stderr=subprocess.STDOUT, timeout=60)
+            # HOME inside the sandbox directory: whatever a run writes "at home" is seen by the snapshots (and stays in the box)
+            for hd in ("home", "home/gen", "home/x", "home/sub"):
+                os.makedirs(os.path.join(box, hd), exist_ok=True)
+            before = snapshot(box)
+            p = subprocess.run([emerge] + args, cwd=cwd, stdout=subprocess.PIPE, stderr=subprocess.STDOUT, timeout=60,
+                               env=dict(os.environ, HOME=os.path.join(box, "home")))
             after = snapshot(box)
             outtxt = p.stdout.decode("utf-8", "replace")
             created = sorted(k for k in after if k not in before)
@@ -307,7 +320,7 @@ def run(ctx):
             ctx.add_violation("a run modified, truncated or deleted something that existed before it started: %s" % a["changed"][:3], dict(a, model=m))
         if a["trace"]:
             ctx.add_violation("the tool printed a Go stack trace", dict(a, model=m))
-        success_paths = all(any(c.endswith("/" + fn) for c in a["created"]) for fn in FILES)
+        success_paths = all(os.path.normpath("%s/%s/%s" % (a["outrel"], a["chosen_name"], fn)) in a["created"] for fn in FILES)      # in <out>/<name>, nowhere else
         complete = success_paths and all(v[2] > 0 for c, v in a["files"].items() if v[0] == "file")
         informational = any(x.startswith("-") and x.lstrip("-").split("=")[0] in ("help", "version", "h") for x in a["args"]) and "-nosuch" not in a["args"]
         if (a["exit"] == 0 and a["success"] == 1) != (a["success"] == 1) or (a["success"] == 1 and not complete):
@@ -321,6 +334,10 @@ def run(ctx):
             want_name = "other" if "-name" in after and after.index("-name") + 1 < len(after) else a["chosen_name"]
             if not all(("%s/%s/%s" % (want_out, want_name, fn)) in a["created"] for fn in FILES) or "SECOND" in after:
                 ctx.add_violation("success although part of the command line was ignored (%s after the input file)" % " ".join(after), dict(a, model=m))
+        if f["success"] == "1" and not a["success"] and not after:
+            # an accepted specification, a usable name, an existing directory given with -out (or the working directory), nothing
+            # in the way and no write fault: `-out selects the parent directory` means the package is written there
+            ctx.add_violation("a run that should write the package into <out>/<name> was refused: -out / -name not honoured", dict(a, model=m))
         if a["exit"] == 0 and not a["success"] and not informational:
             ctx.add_violation("exit status 0 without success", dict(a, model=m))
         if a["exit"] != 0 and not a["output"].strip():
